@@ -15,6 +15,7 @@ HARNESSES = {
     "H8": {"pkg": ".", "run": "^TestVerifH8$", "streams": ["h8"], "toolchain": "go1.26.0", "timeout": (300, 900)},
     "H7": {"pkg": ".", "run": "^TestVerifH7$", "streams": ["h7"], "toolchain": "go1.26.0", "timeout": (300, 900)},
     "H3": {"pkg": "./internal/server/", "run": "^TestVerifH3$", "streams": ["h3"], "toolchain": "go1.26.0", "timeout": (300, 900)},
+    "H4": {"pkg": ".", "run": "^TestVerifH4$", "streams": ["h4"], "toolchain": "go1.26.0", "timeout": (300, 1200)},
     "H1": {"pkg": "./internal/proto/", "run": "^TestVerifH1$", "streams": ["h1"], "toolchain": None,
            "timeout": (600, 2400)},
 }
@@ -163,6 +164,20 @@ PROPS["C17"] = {
     "assumptions": ["usernames in the mutation stream are ASCII"],
 }
 
+PROPS["C12"] = {
+    "modules": ["TurnModel.Props.C12"], "gen": True,
+    "harnesses": ["H4"], "view": ["tstart", "tresp", "tadv", "tclose", "tsize"], "outs": None,
+    "alarms": ["txn-foreign-response", "harness-died"],
+    "rule": "H4 drives the real turn.Client (PerformTransaction / Listen / Close) on a scripted in-memory socket under virtual time: for RTO in {1,100,200,800,1600,3000} ms a response after "
+            "each of the 7 transmissions at 1 ms after it, 1 ms before and exactly at the next timer (+ duplicate), no response at all, a write error on each transmission 0..6 followed by a late "
+            "response and a fresh transaction, and random histories with 1-6 concurrent transactions, interleaved / foreign / duplicate responses, Close at any point; every datagram's virtual "
+            "timestamp, every completion (kind, time) and the table size are replayed through the M5 model; distinct = (op kind, outcome) pairs",
+    "trusted_base": LEAN_TB + ["hand-written model TurnModel/Model/Txn.lean tied to client.go / internal/client/transaction.go by correspondence harness H4 (testing/synctest virtual time)",
+                               "atomicity of table operations: Find/Delete/CloseAndDeleteAll run under mutexTrMap (C18 all_functions_balanced covers those functions)"],
+    "assumptions": ["network loss / delay / duplication / reordering is represented as the instant (or absence) of a response, which is all the client can observe",
+                    "fairness: the retransmission timer of a pending transaction eventually fires (Go runtime)"],
+}
+
 PROOF_NOTE = ("Trusted: Lean 4.33.0 kernel, axioms propext/Classical.choice/Quot.sound only (audited per theorem on every run), "
               "the hand-written model's tie to the code = correspondence harness + compiled driver (agreement observed on generated cases only). ")
 
@@ -218,6 +233,9 @@ MANIFEST_TEXT.update({
                "DESIGN.md §6 C07", "Lean 4 invariants + exact-expiry theorems + differential correspondence around every horizon"),
     "C08": _mt("chan_bijection invariant (numbers distinct, peers distinct, range) over all reachable states, conflict_400, conflict_iff, rejected_changes_nothing, rebind_no_conflict, emitted_numbers_valid.",
                "DESIGN.md §6 C08", "Lean 4 invariant by induction + differential correspondence"),
+    "C12": _mt("exactly_once over EVERY event history (conservation law: completions + pending = begun), response_matches_by_id, response_other_id_untouched, close_completes_all, "
+               "fire_recurrence / timer_rearmed / rtx_schedule (for every RTO: 7 transmissions at the back-off offsets, failure at the 7th firing, table empty), intervals_closed, regenerated constants.",
+               "DESIGN.md §6 C12", "Lean 4 conservation law by induction over event histories + symbolic timetable + differential correspondence under virtual time"),
     "C15": _mt("ledger_matches_live (no entity listed twice; count = live allocations), events_paired (over ANY history, created - deleted = 1 iff live: every prefix balances), "
                "step_events_exact, teardown_complete for control-connection close / relay failure / server close, expiry_teardown, closed_server_empty; "
                "tied by comparing the real EventHandler callbacks and the simulated network's socket open/close log with the model's derived events after every operation. "
